@@ -248,6 +248,39 @@ theorem endpoint_replacement_sound_trap_both (A0 A D D0 x y : Rat) (h0 : A0 < A)
   allFive_of_antider (auxFin_trap A0 A D D0 h0 hAD hD) (antider_trapE_both A0 A D D0 h0 hAD hD) x y hx hy hx' hy'
 example : (-3 : Rat) < -2 ∧ (-2 : Rat) < 5 ∧ (5 : Rat) < 6 ∧ (-2 : Rat) ≤ 0 ∧ (1 : Rat) ≤ 5 := by norm_num
 
+/-- the hand model of the rectangular branch of `_auxiliary_funcs` (finite data, end points finite or infinite on their own
+    side) replaces −∞ by a finite A and +∞ by a finite B with A + 1 ≤ every forecast / observation ≤ B − 1, A + 1 ≤ every
+    finite right end point and every finite left end point + 1 ≤ B — so the hypotheses of the three theorems above hold for it -/
+theorem endpoint_replacement_model_rect (fc ob : List Rat) (as bs : List Fl) (hf : fc ≠ []) (ho : ob ≠ [])
+    (ha : as ≠ []) (hb : bs ≠ [])
+    (has : ∀ t ∈ as, t = ninf ∨ ∃ q, t = fin q) (hbs : ∀ t ∈ bs, t = pinf ∨ ∃ q, t = fin q)
+    (a' b' : List Fl) (h : Model.TW.auxRect (fc.map fin) (ob.map fin) as bs = .ok (a', b')) :
+    ∃ A B, a' = as.map (fun s => Fl.whereB s (Fl.gt s ninf) (fin A)) ∧ b' = bs.map (fun t => Fl.whereB t (Fl.lt t pinf) (fin B)) ∧
+      (∀ x ∈ fc, A + 1 ≤ x ∧ x + 1 ≤ B) ∧ (∀ y ∈ ob, A + 1 ≤ y ∧ y + 1 ≤ B) ∧
+      (∀ q, fin q ∈ bs → A + 1 ≤ q) ∧ (∀ q, fin q ∈ as → q + 1 ≤ B) := by
+  obtain ⟨A, eA, hA1, hA2, hA3⟩ := aux_rect_left_replacement fc ob bs hf ho hb hbs
+  unfold Model.TW.auxRect at h
+  split at h
+  · exact absurd h (by simp)
+  · simp only [eA, Except.ok.injEq, Prod.mk.injEq] at h
+    obtain ⟨h1, h2⟩ := h
+    have has' : ∀ t ∈ a', t = ninf ∨ ∃ q, t = fin q := by
+      intro t ht; rw [← h1, List.mem_map] at ht
+      obtain ⟨s, hs, rfl⟩ := ht
+      rcases has s hs with rfl | ⟨q, rfl⟩
+      · right; exact ⟨A, by simp [Fl.whereB, Fl.gt, Fl.lt]⟩
+      · right; exact ⟨q, by simp [Fl.whereB, Fl.gt, Fl.lt]⟩
+    have hne' : a' ≠ [] := by rw [← h1]; simpa using ha
+    obtain ⟨B, eB, hB1, hB2, hB3⟩ := aux_rect_right_replacement fc ob a' hf ho hne' has'
+    rw [h1, eB] at h2
+    refine ⟨A, B, h1.symm, h2.symm, fun x hx => ⟨hA1 x hx, hB1 x hx⟩, fun y hy => ⟨hA2 y hy, hB2 y hy⟩, hA3, ?_⟩
+    intro q hq
+    apply hB3 q
+    rw [← h1, List.mem_map]
+    exact ⟨fin q, hq, by simp [Fl.whereB, Fl.gt, Fl.lt]⟩
+example : Model.TW.auxRect [fin 0, fin 3] [fin 1, fin 2] [ninf, fin 1] [fin 2, pinf]
+    = .ok ([fin (-1), fin 1], [fin 2, fin 4]) := by decide +kernel
+
 /-- with finite end points the ideal weights are the plain ones (so the oracle's `wRectE` / `wTrapE` is `wRect` / `wTrap`) -/
 theorem ideal_weights_finite (a b c d θ : Rat) (hab : a < b) (hbc : b < c) (hcd : c < d) :
     wRectE (fin a) (fin b) θ = wRect a b θ ∧ wTrapE (fin a) (fin b) (fin c) (fin d) θ = wTrap a b c d θ :=
@@ -488,9 +521,10 @@ example : twSquaredError (wRect 1 2) [1, 2] 3 0 = 3 := by
     for f a polynomial of degree ≤ 3 on each open cell (bridge to Mathlib's intervalIntegral; until then "Milne's rule is
     exact for cubics and integrals are additive" is a trusted mathematical fact).
 
-  theorem aux_rect_replacement_bounds_stmt : Model.TW.auxRect fcst obs a b = .ok (a', b') →
-    every replaced entry of a' is ≤ every finite fcst / obs value − 1 (and of b' ≥ … + 1), so the hypotheses A ≤ x, A ≤ y of
-    §3 hold for the hand model of `_auxiliary_funcs` (checked by the differential harness instead).
+  theorem endpoint_replacement_model_trap_stmt : the analogue of `endpoint_replacement_model_rect` for `Model.TW.auxTrap`
+    (four replaced lists; b′ from min(data, c) − 1, a′ from b′.min − 1, c′ from max(data, b′) + 1, d′ from c′.max + 1) — the
+    ingredients `aux_rect_left_replacement` / `aux_rect_right_replacement` are proved, the assembly is not; covered by the
+    differential harness.
 -/
 
 end SV.Props.C10
